@@ -469,6 +469,53 @@ def derive(repo):
         # no cached mass block at all: nothing can be stale
         F["t_mass_key_group"] = True
         L["t_mass_key_group"] = rel + ":0"
+    # ---- Models/**: derived quantities cached ON a model and reset only through a property setter ------------------
+    # pattern: a property setter stores `self.__x = None` (invalidation), the lazily-updated properties (`if
+    # self.needUpdate: self._Update(); ...`) call those setters; every OTHER reader of `self.__x` must therefore
+    # trigger the lazy update (read one of those properties, or test self.needUpdate) BEFORE it looks at the cache.
+    refresh_ok, where = True, "Models:0"
+    mroot = os.path.join(repo, "EasyFEA", "Models")
+    for dirpath, _, files in sorted(os.walk(mroot)):
+        for fn in sorted(files):
+            if not fn.endswith(".py"):
+                continue
+            rel = os.path.relpath(os.path.join(dirpath, fn), os.path.join(repo, "EasyFEA"))
+            for cls in _classes(_parse(repo, rel)).values():
+                funcs = [m for m in cls.body if isinstance(m, ast.FunctionDef)]
+                setters = [m for m in funcs if any(isinstance(d, ast.Attribute) and d.attr == "setter" for d in m.decorator_list)]
+                invalidated = set()
+                for m in setters:
+                    for n in ast.walk(m):
+                        if isinstance(n, ast.Assign) and isinstance(n.value, ast.Constant) and n.value.value is None:
+                            t = _src(n.targets[0])
+                            if t.startswith("self.__"):
+                                invalidated.add(t)
+                if not invalidated:
+                    continue
+                lazy = set()
+                for m in funcs:
+                    if any(_src(d) == "property" for d in m.decorator_list):
+                        for n in ast.walk(m):
+                            if isinstance(n, ast.If) and "self.needUpdate" in _src(n.test) and _contains_call(n, "self", "_Update"):
+                                lazy.add("self." + m.name)
+                triggers = lazy | {"self.needUpdate"}
+
+                def loads(node, names):
+                    return any(isinstance(n, ast.Attribute) and isinstance(n.ctx, ast.Load) and _src(n) in names for n in ast.walk(node))
+                for m in funcs:
+                    if m in setters or m.name == "__init__":
+                        continue
+                    b = _body(m)
+                    first_read = next((i for i, st_ in enumerate(b) if loads(st_, invalidated)), None)
+                    if first_read is None:
+                        continue
+                    if not any(loads(b[i], triggers) for i in range(first_read)):
+                        refresh_ok = False
+                        where = "%s:%d" % (rel, m.lineno)
+                if refresh_ok and where == "Models:0":
+                    where = "%s:%d" % (rel, cls.lineno)
+    F["t_model_cache_refresh"] = refresh_ok
+    L["t_model_cache_refresh"] = where
     return F, L
 
 
@@ -477,7 +524,8 @@ ORDER = ["t_param_need", "t_model_notify", "t_upd_model_need", "t_upd_mesh_need"
          "t_mesh_clear", "t_mesh_notify", "t_meshset_need", "t_meshset_clear", "t_meshset_sub",
          "t_updmesh_need", "t_updmesh_clear", "t_bcinit", "t_dirichlet", "t_neumann", "t_lagrange",
          "t_getk_reset", "t_newton_need", "t_pf_need_d", "t_pf_need_u", "t_pf_setiter_d", "t_pf_setiter_u",
-         "t_pf_dmg_inval_u", "t_pf_el_inval_d", "t_csr_key_groups", "t_csr_key_ndof", "t_mass_key_group"]
+         "t_pf_dmg_inval_u", "t_pf_el_inval_d", "t_csr_key_groups", "t_csr_key_ndof", "t_mass_key_group",
+         "t_model_cache_refresh"]
 
 MOPS = ["MTranslate", "MRotate", "MSymmetry", "MCoordSet"]
 
